@@ -1110,6 +1110,12 @@ func dynFieldName(v ssa.Value) string {
 	if !ok {
 		return ""
 	}
+	if a, isAlloc := u.X.(*ssa.Alloc); isAlloc && a.Comment != "" {
+		// func-typed parameter or local (naive form keeps it in a named cell): dyn.<name>
+		if _, isSig := derefType(a.Type()).Underlying().(*types.Signature); isSig {
+			return a.Comment
+		}
+	}
 	fa, ok := u.X.(*ssa.FieldAddr)
 	if !ok {
 		return ""
